@@ -139,6 +139,15 @@ def flow_obligations(world, name, props):
                     j, e = pre[-1]
                     o.prove(eng, r, [okc], e[2][1].e == z3.Int('clock.unix_timestamp'), f'accrual before {what} uses the current clock')
                     forced_ok(o, eng, r, okc, e[3].disc, 'accrual error is propagated')
+                # the cache refresh stamps Bank.last_update (frame lemma C01.c): before the accrual it would turn the accrual into a no-op
+                for j, e in acc:
+                    bank = cellname(e[2][0])
+                    early = [x for i2, x in enumerate(E) if i2 < j and x[0] == 'call' and re.search(r'::update_bank_cache$', x[1]) and cellname(x[2][0]) == bank]
+                    o.queries += 1
+                    if early:
+                        o.sat += 1
+                        o.cex.append({'ob': o.oid, 'label': f'update_bank_cache (writes last_update) runs on {bank} before its accrue_interest: the accrual sees a zero time delta', 'role': 'stamp-before-accrual', 'model': {'trace': [x[1] if x[0] != 'call' else short(x[1]) for x in E][:60]}, 'replay': None})
+                    else: o.unsat += 1
         # ---------------- C16.f: disabled accounts refused; sort after last slot mutation
         if 'C16' in props:
             o = ob('C16', 'f', f'{name}: ACCOUNT_DISABLED accounts are refused; sort_balances runs after the last slot mutation')
@@ -158,6 +167,23 @@ def flow_obligations(world, name, props):
                     else:
                         o.unsat += 1
                     o.queries += 1
+        # ---------------- C16.h: a position can be opened only after the asset-tag compatibility check of THAT bank against THAT account
+        if 'C16' in props and any(e[0] == 'wrap_find' and e[1] == 'find_or_create' for e in E):
+            o = ob('C16', 'h', f'{name}: every find_or_create(bank, account) is preceded by validate_asset_tags on the same bank and the same account, error propagated')
+            if o.witness(eng, r, [okc]) is not False:
+                vt = [(i, e) for i, e in enumerate(E) if e[0] == 'call' and re.search(r'::validate_asset_tags$', e[1])]
+                for i, e in enumerate(E):
+                    if not (e[0] == 'wrap_find' and e[1] == 'find_or_create'): continue
+                    bank, la = e[2], e[3]
+                    pre = [(j, v) for j, v in vt if j < i and cellname(v[2][0]) == bank and la is not None and cellname(v[2][1]) is not None and str(la).startswith(str(cellname(v[2][1])))]
+                    o.queries += 1
+                    if not pre:
+                        o.sat += 1
+                        o.cex.append({'ob': o.oid, 'label': f'find_or_create on bank {bank} / account {la} without a preceding validate_asset_tags of that pair', 'role': 'asset-tags',
+                                      'model': {'checked_pairs': [(cellname(v[2][0]), cellname(v[2][1])) for j, v in vt], 'trace': [x[1] if x[0] != 'call' else short(x[1]) for x in E][:60]}, 'replay': None})
+                        continue
+                    o.unsat += 1
+                    forced_ok(o, eng, r, okc, pre[-1][1][3].disc, 'asset-tag mismatch is propagated')
         # ---------------- C04.g: health check after the mutation, error propagated
         if 'C04' in props and F['health'] and all_ops:
             o = ob('C04', 'g', f'{name}: check_account_init_health runs after the balance mutation and sort, and its error is propagated ({F["health"]})')
